@@ -86,6 +86,9 @@ def judgeLine (caseId : String) (op : String) (outs : List String) : String × L
         (caseId, (if lenOk then [] else [s!"VIOLATION case={caseId} sig=page:not-one-page op=[{(op.take 120).toString}]"]) ++
           (if backOk then [] else [s!"VIOLATION case={caseId} sig=page:readback-differs op=[{(op.take 120).toString}] got=[{(d.take 160).toString}]"]))
       | _ => (caseId, [s!"VIOLATION case={caseId} sig=page:no-roundtrip op=[{(op.take 120).toString}] got=[{((String.intercalate " | " outs).take 160).toString}]"])
+  -- the page an encode returned is unchanged after the next page has been encoded
+  | ["twoenc"] =>
+    if outs.any (· == "changed") then (caseId, [s!"VIOLATION case={caseId} sig=page:encoded-page-changed-by-next-encode"]) else (caseId, [])
   | _ => (caseId, [])
 
 end Mkdb.Driver.Page
